@@ -15,6 +15,16 @@ CHECKS = {
    "Every interleaving (2 clients: unbounded; 3 clients: preemption-bounded) of the real ObjectStoreMetadataClient mutation paths, incl. create races, legacy-fallback reads, conflict/retry and retry exhaustion; every catalog version checked for chunk-map/time-index agreement; final state must equal a real-time-consistent sequential order of exactly the Ok operations.",
    "InMemory object store's conditional PUT is atomic; one request = one atomic step; tokio back-off timers fire eagerly (no shared-state access between wake-up and next request)",
    "DESIGN.md section 5 C02"),
+ "C08": (ENGINE_A, "model_checking",
+   "stateless model checking of the real code: exhaustive DFS over all interleavings of 2-3 nodes' lease operations at object-store-request granularity, wall-clock jumps as extra transitions, state caching",
+   "Every interleaving of acquire/renew/complete/fail/scavenge by 2 nodes (3 in thorough, preemption-bounded) combined with every placement of <=2 (3) wall-clock jumps (+150 s, +301 s); invariants at every quiescent state: no lease-file version holds two live leases sharing a chunk, no two holders believe they hold a shared chunk, a reclaimed holder's renew is refused, abandoned leases are acquirable after expiry; also on the in-memory client at call granularity.",
+   "all nodes read the same interposed wall clock; InMemory conditional PUT is atomic; holder belief after renew = wall clock at the renew call + 300 s (what the caller can know)",
+   "DESIGN.md section 5 C08"),
+ "C13": (ENGINE_A, "model_checking",
+   "stateless model checking of the real code: exhaustive DFS over all interleavings of 2-3 nodes' shard-metadata updates/creations at object-store-request granularity with state caching; plus exhaustive update histories of the router cache",
+   "Every interleaving of 1-2 update_shard_metadata calls per node (expected generation equal, stale, ahead; shard absent or at generation 2) on the object-store client (request granularity) and the in-memory client (call granularity); oracle: one winner per base generation, generations form the chain g0+1.., every version ever written carries the next generation, stored content belongs to the last winner; ShardRouter: all update sequences up to depth 5/7 never lower the cached generation.",
+   "InMemory conditional PUT is atomic; the in-memory client's synchronous check-then-insert window is not a scheduling point of a single-threaded scheduler (stated in DESIGN.md)",
+   "DESIGN.md section 5 C13"),
 }
 
 NOT_YET = {}
